@@ -9,7 +9,12 @@
 //!                         -> status pid*32 ndata data* nmetas (key*32 signer writable)*
 //!   kind 1  mint image  : 1 owner_is_token writable nbytes bytes*
 //!   kind 2  token image : 2 owner_is_token writable nbytes bytes*
-//!                         -> s: validate-tag data_unchecked-tag [fields] data-tag     r: unpack-tag [fields] unpack_unchecked-tag [fields]
+//!                         -> s: validate-tag data_unchecked-tag [fields] data-tag 7777 probe*    r: unpack-tag [fields] unpack_unchecked-tag [fields]
+//!                         probe* (validate_mint / validate_token, judged by the predicate only): the two original values
+//!                         (right expectations: 0 = accepted; opposite freeze authority / other owner and mint: 1 = rejected),
+//!                         then one value per probe group (8 for a mint, 6 for a token account): 1 = every probe of the group
+//!                         behaved as required, 2 = not applicable, 100 + i = probe i did not; all 9 when the reference
+//!                         rejects the image or the owner is foreign
 //!   kind 3  ATA address : 3 wallet*32 mint*32           -> key*32
 //!   kind 9  PDA oracle  : 9 pid*32 nseeds (len bytes*)* -> key*32 bump   (only an `s` line)
 #![allow(clippy::all)]
@@ -541,6 +546,46 @@ fn image_args(c: &[i128]) -> Option<(bool, bool, Vec<u8>)> {
 
 const OTHER_OWNER: [u8; 32] = [7u8; 32];
 
+// ---- probes of validate_mint / validate_token (after the marker 7777; judged by the predicate only) ----
+/// number of probe-group values after the two original probe values
+const MINT_GROUPS: usize = 8;
+const TOKEN_GROUPS: usize = 6;
+/// one bit in each 8-byte quarter of a key
+const FLIPS: [(usize, u8); 4] = [(0, 0), (11, 3), (21, 5), (31, 7)];
+
+fn flip(k: &Pubkey, byte: usize, bit: u8) -> Pubkey {
+    let mut b = k.to_bytes();
+    b[byte] ^= 1 << bit;
+    Pubkey::new_from_array(b)
+}
+
+fn complement(k: &Pubkey) -> Pubkey {
+    let mut b = k.to_bytes();
+    for x in b.iter_mut() {
+        *x = !*x;
+    }
+    Pubkey::new_from_array(b)
+}
+
+fn raw_key(data: &[u8], off: usize) -> Pubkey {
+    let mut b = [0u8; 32];
+    b.copy_from_slice(&data[off..off + 32]);
+    Pubkey::new_from_array(b)
+}
+
+/// a group of probes: `None` = not applicable, `Some(true)` = behaved as required.
+/// value: 1 = every applicable probe behaved as required, 2 = no applicable probe, 100 + i = probe i did not
+fn group_value(v: &[Option<bool>]) -> i128 {
+    if let Some(i) = v.iter().position(|x| *x == Some(false)) {
+        return 100 + i as i128;
+    }
+    if v.iter().all(|x| x.is_none()) {
+        2
+    } else {
+        1
+    }
+}
+
 fn run_mint(c: &[i128]) -> (Vec<i128>, Vec<i128>) {
     let Some((own, wr, data)) = image_args(c) else { return (vec![BAD], vec![BAD]) };
     let owner = if own { Token::ID.to_bytes() } else { OTHER_OWNER };
@@ -590,8 +635,69 @@ fn run_mint(c: &[i128]) -> (Vec<i128>, Vec<i128>) {
                         freeze_authority: match &fa { Some(_) => sfstate::FreezeAuthority::None, None => sfstate::FreezeAuthority::Some(&other) },
                     };
                     s.push(match m.validate_mint(opposite) { Ok(()) => 0, Err(_) => 1 });
+                    // NEGATIVE probes: expectations the reference's reading of the image does NOT support must be
+                    // rejected.  The keys are taken from the raw image (the 32 bytes behind a COption tag, which are
+                    // stale when the tag is None), from the reference's values with one bit flipped, and unrelated keys.
+                    use sfstate::FreezeAuthority as FA;
+                    let raw_ma = raw_key(&data, 4);
+                    let raw_fa = raw_key(&data, 50);
+                    let zero = Pubkey::default();
+                    let d = rm.decimals;
+                    let right_fa = match &fa { Some(k) => FA::Some(k), None => FA::None };
+                    let rejects = |decimals: Option<u8>, authority: Option<&Pubkey>, freeze_authority: FA| -> Option<bool> {
+                        Some(m.validate_mint(sfstate::ValidateMint { decimals, authority, freeze_authority }).is_err())
+                    };
+                    let accepts = |decimals: Option<u8>, authority: Option<&Pubkey>, freeze_authority: FA| -> Option<bool> {
+                        Some(m.validate_mint(sfstate::ValidateMint { decimals, authority, freeze_authority }).is_ok())
+                    };
+                    let when = |c: bool, r: Option<bool>| if c { r } else { None };
+                    // g0: the reference reports NO mint authority: the (stale) key bytes behind the None tag are not an authority
+                    let g0 = [
+                        when(ma.is_none(), rejects(None, Some(&raw_ma), FA::Any)),
+                        when(ma.is_none(), rejects(Some(d), Some(&raw_ma), right_fa)),
+                    ];
+                    // g1: the key at the mint_authority slot with one bit flipped
+                    let g1: Vec<Option<bool>> = FLIPS.iter().map(|(b, i)| rejects(None, Some(&flip(&raw_ma, *b, *i)), FA::Any)).collect();
+                    // g2: unrelated mint authorities
+                    let g2: Vec<Option<bool>> = [other, zero, raw_fa, complement(&raw_ma)]
+                        .iter()
+                        .map(|k| when(ma != Some(*k), rejects(None, Some(k), FA::Any)))
+                        .collect();
+                    // g3: wrong decimals
+                    let g3 = [
+                        rejects(Some(d.wrapping_add(1)), None, FA::Any),
+                        rejects(Some(d.wrapping_sub(1)), None, FA::Any),
+                        rejects(Some(d ^ 0x80), None, FA::Any),
+                        rejects(Some(d.wrapping_add(1)), ma.as_ref(), right_fa),
+                    ];
+                    // g4: the reference reports NO freeze authority: the (stale) key bytes behind the None tag are not one
+                    let g4 = [
+                        when(fa.is_none(), rejects(None, None, FA::Some(&raw_fa))),
+                        when(fa.is_none(), rejects(Some(d), ma.as_ref(), FA::Some(&raw_fa))),
+                    ];
+                    // g5: wrong freeze authorities (one bit flipped, unrelated keys)
+                    let mut g5: Vec<Option<bool>> = FLIPS.iter().map(|(b, i)| rejects(None, None, FA::Some(&flip(&raw_fa, *b, *i)))).collect();
+                    for k in [other, zero, raw_ma, complement(&raw_fa)] {
+                        g5.push(when(fa != Some(k), rejects(None, None, FA::Some(&k))));
+                    }
+                    // g6: exactly one wrong expectation among right ones
+                    let wrong_fa = match &fa { Some(_) => FA::None, None => FA::Some(&other) };
+                    let g6 = [
+                        when(ma != Some(other), rejects(Some(d), Some(&other), right_fa)),
+                        rejects(Some(d), ma.as_ref(), wrong_fa),
+                        when(fa.is_some() && fa != Some(other), rejects(Some(d), ma.as_ref(), FA::Some(&other))),
+                    ];
+                    // g7 (positive): every single right expectation alone, and no expectation at all, is accepted
+                    let g7 = [
+                        accepts(Some(d), None, FA::Any),
+                        when(ma.is_some(), accepts(None, ma.as_ref(), FA::Any)),
+                        accepts(None, None, right_fa),
+                        accepts(None, None, FA::Any),
+                    ];
+                    let groups: [&[Option<bool>]; MINT_GROUPS] = [&g0, &g1, &g2, &g3, &g4, &g5, &g6, &g7];
+                    s.extend(groups.iter().map(|g| group_value(g)));
                 }
-                _ => s.extend([9, 9]),
+                _ => s.extend([9; 2 + MINT_GROUPS]),
             }
         }
     }
@@ -665,8 +771,45 @@ fn run_token_image(c: &[i128]) -> (Vec<i128>, Vec<i128>) {
                         (Err(_), Err(_)) => 1,
                         _ => if ra.owner == other || ra.mint == other { 1 } else { 0 },
                     });
+                    // NEGATIVE probes (ValidateToken has exactly the expectations `mint` and `owner`): keys the reference
+                    // does not report as the mint / the owner must be rejected - one bit flipped, keys taken from the other
+                    // slots of the raw image (including the stale bytes behind a None delegate / close_authority tag),
+                    // unrelated keys
+                    let raw_delegate = raw_key(&data, 76);
+                    let raw_close = raw_key(&data, 133);
+                    let zero = Pubkey::default();
+                    let (mint, owner) = (ra.mint, ra.owner);
+                    let rejects = |mint: Option<Pubkey>, owner: Option<Pubkey>| -> Option<bool> {
+                        Some(m.validate_token(sfstate::ValidateToken { mint: mint.map(KeyFor::new), owner }).is_err())
+                    };
+                    let accepts = |mint: Option<Pubkey>, owner: Option<Pubkey>| -> Option<bool> {
+                        Some(m.validate_token(sfstate::ValidateToken { mint: mint.map(KeyFor::new), owner }).is_ok())
+                    };
+                    let when = |c: bool, r: Option<bool>| if c { r } else { None };
+                    let t0: Vec<Option<bool>> = FLIPS.iter().map(|(b, i)| rejects(None, Some(flip(&owner, *b, *i)))).collect();
+                    let t1: Vec<Option<bool>> = FLIPS.iter().map(|(b, i)| rejects(Some(flip(&mint, *b, *i)), None)).collect();
+                    let t2: Vec<Option<bool>> = [raw_delegate, raw_close, mint, zero, other, complement(&owner)]
+                        .iter()
+                        .map(|k| when(*k != owner, rejects(None, Some(*k))))
+                        .collect();
+                    let t3: Vec<Option<bool>> = [raw_delegate, raw_close, owner, zero, other, complement(&mint)]
+                        .iter()
+                        .map(|k| when(*k != mint, rejects(Some(*k), None)))
+                        .collect();
+                    // exactly one wrong expectation next to a right one; the two keys swapped
+                    let t4 = [
+                        rejects(Some(mint), Some(flip(&owner, 31, 0))),
+                        rejects(Some(flip(&mint, 31, 0)), Some(owner)),
+                        when(raw_delegate != owner, rejects(Some(mint), Some(raw_delegate))),
+                        when(raw_close != owner, rejects(Some(mint), Some(raw_close))),
+                        when(mint != owner, rejects(Some(owner), Some(mint))),
+                    ];
+                    // positive: each right expectation alone, and no expectation, is accepted
+                    let t5 = [accepts(Some(mint), None), accepts(None, Some(owner)), accepts(None, None)];
+                    let groups: [&[Option<bool>]; TOKEN_GROUPS] = [&t0, &t1, &t2, &t3, &t4, &t5];
+                    s.extend(groups.iter().map(|g| group_value(g)));
                 }
-                _ => s.extend([9, 9]),
+                _ => s.extend([9; 2 + TOKEN_GROUPS]),
             }
         }
     }
